@@ -1,20 +1,24 @@
 (* C14 — IRC state stays consistent: unique nicks, symmetric membership, no empty channels,
    members are live sessions reachable by their current nickname.
-   Partial: the clauses "owned names are syntactically valid" and "limits are never exceeded" of
-   the property are not part of the proved invariant yet; they are checked on the implementation
-   by the invariant walk of the correspondence driver (see DESIGN.md). *)
+   Names: every owned nickname / channel name is syntactically valid in every reachable state (C14_names_valid; the only
+   hypothesis beyond client input is that NICK lines of an authenticated services link carry a valid nickname —
+   part of `conforming`; without it the clause fails, C14_names_refuted: scmd_nick.go does not validate).
+   Limits: "count <= limit" is not an invariant as such (a Config entry may lower a limit below the count);
+   C14_limits_step is the strongest true per-entry statement, C14_limits the history form under `configs_keep`. *)
 From stdpp Require Import gmap.
 From Coq Require Import Strings.String.
 From RV Require Import Irc.Str Irc.State Irc.Cmds Irc.Apply.
+From Coq Require Import NArith.
 From RV Require Import IrcProofs.Inv IrcProofs.Top IrcProofs.Examples.
+From RV Require Import IrcProofs.Names.
 Local Open Scope string_scope.
 
 (* after every entry of every well-formed history the invariant holds (and the history ran to the end) *)
-Theorem C14_inv_partial : forall e net es,
+Theorem C14_inv : forall e net es,
   wf_history e (init_server net) es ->
   exists sv', run e (init_server net) es = Some sv' /\ EInv sv'.
 Proof. exact no_panic. Qed.
-Print Assumptions C14_inv_partial.
+Print Assumptions C14_inv.
 
 (* one step: any state satisfying the invariant, any well-formed entry *)
 Theorem C14_step : forall e sv en,
@@ -48,3 +52,71 @@ Print Assumptions C14_channels.
 Theorem C14_nonvacuous : wf_history ex_env (init_server "robustirc.net") ex_history.
 Proof. exact ex_history_wf. Qed.
 Print Assumptions C14_nonvacuous.
+
+(* every owned nickname and every channel name is syntactically valid; the tables are keyed by the folded names *)
+Theorem C14_names_valid : forall e net es,
+  wf_history e (init_server net) es ->
+  exists sv', run e (init_server net) es = Some sv' /\
+    (forall (k : N * N) s, sv_sessions sv' !! k = Some s ->
+       s_nick s = "" \/ (valid_nick (s_nick s) = true /\ sv_nicks sv' !! nick_to_lower (s_nick s) = Some k)) /\
+    (forall n (k : N * N), sv_nicks sv' !! n = Some k ->
+       exists s, sv_sessions sv' !! k = Some s /\ valid_nick (s_nick s) = true /\ nick_to_lower (s_nick s) = n) /\
+    (forall lc c, sv_channels sv' !! lc = Some c -> valid_chan (c_name c) = true /\ chan_to_lower (c_name c) = lc).
+Proof. exact C14_names_valid_stmt. Qed.
+Print Assumptions C14_names_valid.
+
+(* validity needs only that NICK lines of services links carry a valid nickname (no well-formedness, no base invariant) *)
+Theorem C14_names_valid_any_history : forall e net es sv',
+  nick_history e (init_server net) es -> run e (init_server net) es = Some sv' ->
+  (forall (k : N * N) s, sv_sessions sv' !! k = Some s -> s_nick s = "" \/ valid_nick (s_nick s) = true) /\
+  (forall lc c, sv_channels sv' !! lc = Some c -> valid_chan (c_name c) = true).
+Proof. exact C14_names_valid_any_history_stmt. Qed.
+Print Assumptions C14_names_valid_any_history.
+
+(* ... and without that hypothesis the clause fails: scmd_nick.go does not validate the nickname of a new pseudo-client *)
+Theorem C14_names_refuted :
+  exists sv' (k : N * N) s,
+    run ex_env (init_server "robustirc.net") bad_nick_history = Some sv' /\
+    sv_sessions sv' !! k = Some s /\ s_nick s = "1bad,nick" /\ valid_nick (s_nick s) = false /\
+    sv_nicks sv' !! nick_to_lower (s_nick s) = Some k /\ ~ NV sv'.
+Proof. exact names_refuted. Qed.
+Print Assumptions C14_names_refuted.
+
+(* one entry: limits change only by a configuration entry; each count ends at most at max(old count, limit); 0 = no limit *)
+Theorem C14_limits_step : forall e sv en sv',
+  entry_result (apply_entry e sv en) = Some sv' ->
+  (max_sessions sv = 0 \/ nsess sv' <= N.max (nsess sv) (max_sessions sv))%N /\
+  (max_channels sv = 0 \/ nchan sv' <= N.max (nchan sv) (max_channels sv))%N /\
+  match en with
+  | EConfig _ _ _ (Some g) =>
+      max_sessions sv' = g_maxSessions g /\ max_channels sv' = g_maxChannels g /\ nsess sv' = nsess sv /\ nchan sv' = nchan sv
+  | _ => max_sessions sv' = max_sessions sv /\ max_channels sv' = max_channels sv
+  end.
+Proof. exact limits_step. Qed.
+Print Assumptions C14_limits_step.
+
+(* histories in which no configuration change sets a limit below the count of that moment: never exceeded *)
+Theorem C14_limits : forall e net es,
+  wf_history e (init_server net) es -> configs_keep e (init_server net) es ->
+  exists sv', run e (init_server net) es = Some sv' /\
+    (max_sessions sv' = 0 \/ nsess sv' <= max_sessions sv')%N /\ (max_channels sv' = 0 \/ nchan sv' <= max_channels sv')%N.
+Proof. exact limits_history. Qed.
+Print Assumptions C14_limits.
+
+(* the hypotheses are satisfiable by histories that reach non-trivial states and hit both limits *)
+Theorem C14_names_limits_nonvacuous :
+  (wf_history ex_env (init_server "robustirc.net") lim_history /\ configs_keep ex_env (init_server "robustirc.net") lim_history /\
+   lim_refusals_b = true) /\
+  (wf_history ex_env (init_server "robustirc.net") (firstn 9 ex_history) /\
+   match state_after 9 ex_history with
+   | Some sv' =>
+       N.eqb (nsess sv') 2 && bool_decide (sv_nicks sv' !! "foo" = Some (1%N, 0%N)) &&
+       bool_decide (sv_nicks sv' !! "bar" = Some (4%N, 0%N)) &&
+       match sv_channels sv' !! "#chan" with
+       | Some c => String.eqb (c_name c) "#Chan" && Nat.eqb (size (c_nicks c)) 2
+       | None => false
+       end
+   | None => false
+   end = true).
+Proof. exact C14_nonvacuous_stmt. Qed.
+Print Assumptions C14_names_limits_nonvacuous.
